@@ -143,7 +143,7 @@ PROPS["C20"] = dict(
           "header decoder; the header's compression code must be one of the constants of the generated package (read with go/parser from the tree); non-trivial = file with >=1 nil, "
           ">=1 empty and >=1 non-empty record; distinct = distinct case JSON"),
     level_text="Differential between two decoders of the same bytes with an exact equality oracle; sampled exploration over record sequences x all four compression types.",
-    level_note="'known to the schema' is decided against the generated Go package in the repository, not other Kaitai targets; enum label names are not asserted",
+    level_note="'known to the schema' is decided against the generated Go package in the repository, not other Kaitai targets; enum label names are not asserted; besides count, nil flags and payload bytes the decoded header fields (lengths, checksum, magic) are compared with the bytes on disk, since a mis-decoded multi-group integer is a mis-decoded record",
     assumptions=COMMON_ASSUME,
     require_labels=["comp=0", "comp=1", "comp=2", "comp=3"],
     quick=dict(shards=16, checks=200),
